@@ -12,9 +12,10 @@ Section CopySpecs.
   Variables tn tn' : str -> str.
   Variables acc acc' : str -> str -> Prop.
   Variables rh rh' wh wh' : fhandle -> str -> nat -> Prop.
+  Variables hid hid' anc anc' : str -> Prop.
 
-  Definition La := api_laws a V V' tn acc rh wh.
-  Definition La' := api_laws a' V' V tn' acc' rh' wh'.
+  Definition La := api_laws a V V' tn acc rh wh hid anc.
+  Definition La' := api_laws a' V' V tn' acc' rh' wh' hid' anc'.
 
   Definition meta_of_info (fi : finfo) (m : meta) : Prop :=
     m_perm m = N.land (fi_perm fi) 4095 /\ Z.of_N (m_uid m) = fi_uid fi /\ Z.of_N (m_gid m) = fi_gid fi.
@@ -33,7 +34,7 @@ Section CopySpecs.
     La -> forall w p fi,
     quiet w -> swf (V w) -> sdirect (V w) p -> p <> s_root -> fi_kind fi = KDir ->
     (0 <= fi_uid fi)%Z -> (0 <= fi_gid fi)%Z ->
-    (V w !! p = None \/ sdir (V w) p) ->
+    (V w !! p = None \/ sdir (V w) p) -> ~ hid p ->
     exists w' m', copy_dir a p fi w = (MOk tt, w') /\ step_post w w' [p] /\
                   V w' !! p = Some (Dir m') /\ meta_of_info fi m'.
 
@@ -46,7 +47,7 @@ Section CopySpecs.
     quiet w -> swf (V w) -> swf (V' w) -> sdirect (V w) p -> fi_kind fi = KFile ->
     (0 <= fi_uid fi)%Z -> (0 <= fi_gid fi)%Z ->
     (V w !! p = None \/ exists m0 c0, V w !! p = Some (File m0 c0)) ->
-    rh' src ps 0 -> V' w !! ps = Some (File ms c) -> small c ->
+    rh' src ps 0 -> V' w !! ps = Some (File ms c) -> small c -> ~ hid p ->
     exists w' m', copy_file a p fi src w = (MOk tt, w') /\ step_post w w' [p] /\
                   V w' !! p = Some (File m' c) /\ meta_of_info fi m' /\ m_mt m' = fi_mt fi.
 
@@ -54,7 +55,7 @@ Section CopySpecs.
     La -> La' -> forall w p fi ms t,
     quiet w -> swf (V w) -> swf (V' w) -> snolinkpar (V' w) p -> V' w !! p = Some (Link ms t) ->
     sdirect (V w) p -> V w !! p = None -> fi_kind fi = KLink ->
-    (0 <= fi_uid fi)%Z -> (0 <= fi_gid fi)%Z -> t <> [] -> acc t p ->
+    (0 <= fi_uid fi)%Z -> (0 <= fi_gid fi)%Z -> t <> [] -> acc t p -> ~ hid p ->
     exists w' m', copy_symlink a' a p fi w = (MOk tt, w') /\ step_post w w' [p] /\
                   V w' !! p = Some (Link m' (tn t)) /\ m_perm m' = 511 /\
                   Z.of_N (m_uid m') = fi_uid fi /\ Z.of_N (m_gid m') = fi_gid fi.
@@ -71,9 +72,10 @@ Section TrySpecs.
   Variables tnb tnk : str -> str.
   Variables accb acck : str -> str -> Prop.
   Variables rhb rhk whb whk : fhandle -> str -> nat -> Prop.
+  Variables hid anc : str -> Prop.
   Variable B0 : store.
 
-  Let Lb := base_laws base Vb Vk tnb accb rhb whb.
+  Let Lb := base_laws base Vb Vk tnb accb rhb whb hid anc.
   Let Lk := backup_laws backup Vb Vk tnk acck rhk whk.
   Let Lb2 := base_laws2 base Vb Vk tnb accb rhb whb.
   Let inv := Inv Vb Vk B0.
@@ -117,7 +119,7 @@ Section TrySpecs.
       is back (directory timestamps and the root's own metadata aside), the
       backup holds nothing any more, nothing is tracked *)
   Definition rollback_stmt : Prop :=
-    Lb -> Lk -> links_ok tnb tnk accb acck B0 -> all_small B0 -> swf B0 ->
+    Lb -> Lk -> links_ok tnb tnk accb acck B0 -> all_small B0 -> swf B0 -> loc_ok hid anc B0 ->
     forall w, inv w ->
     exists w', b_rollback base backup w = (MOk tt, w') /\ quiet w' /\
                store_eqv (Vb w') B0 /\ (forall p, p <> s_root -> Vk w' !! p = None) /\
